@@ -230,7 +230,9 @@ func (e *Engine) typedAxiom(h Term, key string) (Term, bool) {
 func (e *Engine) closednessAxiom(h Term, key string, bound Term) (Term, bool) {
 	kind := e.heapValKind[key]
 	if kind == "" {
-		return Term{}, false
+		// opt-in (root flag deep_closedness): struct-valued cells - the pointers / slice bases / interface payloads
+		// nested in the stored structs are not fresh refs either
+		return e.deepClosednessAxiom(h, key, bound)
 	}
 	isMem := strings.HasPrefix(key, "Mem|")
 	var val Term
